@@ -21,7 +21,7 @@ from ..model import AnalysisError, Func, norm_stmt, parent
 from ..paths import PathFinder, describe_path
 from ..pattern import C, G, V, call, match, norm
 from ..terms import Term, alts, contains, ends_with_attrs, root_of, show, subterms
-from ..util import gated_values, guard_leaves, norm_cond, strict_lt, calls_in, deep_subterms, nodes_in
+from ..util import cond_value, gated_values, guard_leaves, norm_cond, strict_lt, tuple_components, calls_in, deep_subterms, nodes_in
 from .c01 import c01_2
 from .c02 import c02_2, c02_4
 from .c14 import ensemble_calculate, optimizer_callbacks
@@ -42,7 +42,7 @@ def propagate_fn(ctx: Ctx) -> Func:
     for f in ctx.repo.funcs_in("ropt.ensemble_evaluator._evaluator_results"):
         if f.cls is None and len(f.params) == 2:
             rt = ctx.X.return_term(f)
-            if rt[0] == "tuple" and len(rt[1]) == 2 and contains(rt, lambda s: s == ("global", "numpy.isnan")):
+            if tuple_components(rt, 2) is not None and contains(rt, lambda s: s == ("global", "numpy.isnan")):
                 return f
     raise AnalysisError("NaN propagation helper not found")
 
@@ -64,33 +64,48 @@ def c03_1(ctx: Ctx) -> RuleResult:
     f = propagate_fn(ctx)
     rt = X.return_term(f)
     pobj, pcon = ("param", f.qualname, f.params[0]), ("param", f.qualname, f.params[1])
+    NONE_ = ("const", None)
 
     def row_any(p):
         return [norm(call("numpy.any", call("numpy.isnan", p), axis=C(-1)))]
 
-    for name, elem, p in (("objectives", rt[1][0], pobj), ("constraints", rt[1][1], pcon)):
-        ups = [a for a in alts(elem) if a[0] == "update"]
-        ok = len(ups) >= 1
-        why = "" if ok else f"returned {name} are `{show(elem, 100)}`: failed rows are not overwritten with NaN"
-        for u in ups:
-            base, idx, val = u[1], u[3], u[4]
-            if val != ("global", "numpy.nan"):
-                ok, why = False, f"failed rows of {name} are set to `{show(val, 30)}`, not NaN"
-                continue
-            if not (idx[0] == "tuple" and len(idx[1]) == 2 and idx[1][1] == ("slice", C(None), C(None), C(None))):
-                ok, why = False, f"only `{show(idx, 40)}` of a failed row is overwritten in {name}: later code reads column 0 only"
-                continue
-            sel = idx[1][0]
-            # the selector is the OR of both row tests
-            parts = {norm(s) for s in X.closure(sel) if s[0] == "call"}
-            has_obj = any(x in parts for x in row_any(pobj))
-            has_con = any(x in parts for x in row_any(pcon))
-            ored = any(s[0] in ("aug", "binop") and s[1] == "|" for s in X.closure(sel)) or any(
-                s[0] == "call" and s[1] == ("global", "numpy.logical_or") for s in X.closure(sel))
-            if not (has_obj and has_con and ored):
-                ok = False
-                why = (f"row selector for {name} is `{show(sel, 100)}`: it does not combine any-NaN of the objectives with any-NaN of the constraints "
-                       "(a realization failing in one array keeps values in the other)")
+    # every returning path (early returns for absent arrays included): the rows that are overwritten
+    leaves = [(conds, leaf) for conds, leaf in guard_leaves(X.guarded_return(f), strip_wrappers=False)]
+    state = {"objectives": [False, True, ""], "constraints": [False, True, ""]}  # [seen an update, ok, why]
+    for conds, leaf in leaves:
+        if leaf[0] != "tuple" or len(leaf[1]) != 2:
+            for st_ in state.values():
+                st_[1], st_[2] = False, f"returns `{show(leaf, 60)}` instead of (objectives, constraints)"
+            continue
+        obj_none = cond_value(conds, ("cmp", "is", pobj, NONE_))
+        con_none = cond_value(conds, ("cmp", "is", pcon, NONE_))
+        for name, elem in (("objectives", leaf[1][0]), ("constraints", leaf[1][1])):
+            st_ = state[name]
+            for u in [a for a in alts(elem) if a[0] == "update"]:
+                st_[0] = True
+                base, idx, val = u[1], u[3], u[4]
+                if val != ("global", "numpy.nan"):
+                    st_[1], st_[2] = False, f"failed rows of {name} are set to `{show(val, 30)}`, not NaN"
+                    continue
+                if not (idx[0] == "tuple" and len(idx[1]) == 2 and idx[1][1] == ("slice", C(None), C(None), C(None))):
+                    st_[1], st_[2] = False, f"only `{show(idx, 40)}` of a failed row is overwritten in {name}: later code reads column 0 only"
+                    continue
+                sel = idx[1][0]
+                # the selector is the OR of the row tests of every array that is present
+                parts = {norm(s) for s in X.closure(sel) if s[0] == "call"}
+                has_obj = any(x in parts for x in row_any(pobj)) or obj_none is True
+                has_con = any(x in parts for x in row_any(pcon)) or con_none is True
+                need_or = obj_none is not True and con_none is not True
+                ored = any(s[0] in ("aug", "binop") and s[1] == "|" for s in X.closure(sel)) or any(
+                    s[0] == "call" and s[1] == ("global", "numpy.logical_or") for s in X.closure(sel))
+                if not (has_obj and has_con and (ored or not need_or)):
+                    st_[1] = False
+                    st_[2] = (f"row selector for {name} is `{show(sel, 100)}`: it does not combine any-NaN of the objectives with any-NaN of the constraints "
+                              "(a realization failing in one array keeps values in the other)")
+    for name in ("objectives", "constraints"):
+        seen, ok, why = state[name]
+        if not seen:
+            ok, why = False, f"returned {name} are never overwritten with NaN on failed rows"
         res.add(f, f.node, f"{name}: rows where any objective or any constraint is NaN are NaN in all columns", ok, why, construct=f"{f.name}: {name} rows")
     # reductions are 'any' over the last axis (not 'all', not another axis)
     reds = []
